@@ -19,6 +19,7 @@ import (
 
 type c15Env struct {
 	mux     *larking.Mux
+	muxS    *larking.Mux // the same service behind a stats handler and interceptors (cases "C15T <hex> s")
 	invoked bool
 	has     bool
 	dl      time.Time
@@ -46,6 +47,13 @@ func c15Setup() *c15Env {
 		return dynamicpb.NewMessage(out), nil
 	}}
 	e.mux, err = dynMux([]protoreflect.FileDescriptor{fd}, impl)
+	if err != nil {
+		panic(err)
+	}
+	e.muxS, err = dynMux([]protoreflect.FileDescriptor{fd}, impl, larking.StatsOption(c14Stats{}),
+		larking.UnaryServerInterceptorOption(func(ctx context.Context, req interface{}, info *grpc.UnaryServerInfo, h grpc.UnaryHandler) (interface{}, error) {
+			return h(ctx, req)
+		}))
 	if err != nil {
 		panic(err)
 	}
@@ -83,7 +91,11 @@ func c15Run(o *out, input string) {
 				w.Code = 599
 			}
 		}()
-		e.mux.ServeHTTP(w, r)
+		if len(f) > 2 && f[2] == "s" {
+			e.muxS.ServeHTTP(w, r)
+		} else {
+			e.mux.ServeHTTP(w, r)
+		}
 	}()
 	gs := w.Header().Get("Grpc-Status")
 	if gs == "" {
@@ -108,9 +120,15 @@ func c15Run(o *out, input string) {
 }
 
 func c15Gen(o *out, r *rng, tier string) {
+	nemit := 0
 	emit := func(s string, tag string) {
 		o.count(tag)
 		c15Run(o, "C15T "+hx([]byte(s)))
+		if nemit++; nemit%5 == 0 {
+			// the same header on a mux with a stats handler and an interceptor
+			o.count("behind-stats/" + tag)
+			c15Run(o, "C15T "+hx([]byte(s))+" s")
+		}
 	}
 	units := "HMSmun"
 	c15cGen(o)
